@@ -350,10 +350,8 @@ func (w *World) minterClaim(ev ext.MEvent) mhub2types.ExternalEvent {
 				rc = "bsc"
 			}
 			return &mhub2types.TransferToChainEvent{EventNonce: ev.EventNonce, ExternalCoinId: coin, Amount: sdk.NewIntFromBigInt(tx.Value), Fee: sdk.NewIntFromBigInt(fee),
-				// NOTE: the real connector hands the recipient over as the depositor spelled it; this actor normalises it.
-				// Passing the spelling through makes the hub skip the holder discount for "0X"/bare recipients, on which the
-				// C11 discount model has no decided opinion yet (seeded change c10l is therefore not reached)
-				Sender: sender, ReceiverChainId: rc, ExternalReceiver: gethcommon.HexToAddress(ev.Cmd.Recipient).Hex(), ExternalHeight: tx.Height, TxHash: tx.Hash}
+				// the connector hands the recipient over as the depositor spelled it (40 hex digits with 0x, 0X or no prefix)
+				Sender: sender, ReceiverChainId: rc, ExternalReceiver: ev.Cmd.Recipient, ExternalHeight: tx.Height, TxHash: tx.Hash}
 		}
 	case ext.MBatch:
 		return &mhub2types.BatchExecutedEvent{ExternalCoinId: strconv.FormatUint(tx.Items[0].Coin, 10), EventNonce: ev.EventNonce, ExternalHeight: tx.Height,
